@@ -8,7 +8,7 @@ wt=/tmp/seedrepo_$$
 git -C /repo worktree add --detach $wt HEAD >/dev/null 2>&1 || exit 3
 git -C $wt apply "$patch" || { git -C /repo worktree remove --force $wt; exit 3; }
 out=/tmp/seedout_$$; mkdir -p $out
-VERIF_REPO=$wt VERIF_OUT=$out python3 /verif/check.py $id --tier $tier 2>&1 | grep -v "^KNOWN-FINDING" | cut -c1-220 | tail -4
+VERIF_ONLY=$VERIF_ONLY VERIF_REPO=$wt VERIF_OUT=$out python3 /verif/check.py $id --tier $tier 2>&1 | grep -v "^KNOWN-FINDING" | cut -c1-220 | tail -4
 rc=${PIPESTATUS[0]}
 git -C /repo worktree remove --force $wt; rm -rf $out
 echo "seedtest $id $(basename $(dirname $(dirname $patch))): rc=$rc"
